@@ -76,6 +76,7 @@ type step struct {
 	Req     string `json:"request,omitempty"`
 	IDClass string `json:"id_class"`
 	ID      string `json:"id,omitempty"`
+	Shape   string `json:"shape,omitempty"` // op "shaped": KIND x METHOD = class (shaped.go)
 	Status  int    `json:"status"`
 	Header  string `json:"session_header,omitempty"`
 	Expect  string `json:"expect"`
@@ -110,13 +111,57 @@ func sequential(r *vh.Run, c cfg, nHist, maxSteps int) {
 	foreignID := fre.Sess
 
 	everIssued := map[string]bool{}
-	for h := 0; h < nHist; h++ {
+	var shapedSample, firstHist []step
+	strays := map[string]bool{} // sessions the server reports although no history accounts for them, once reported
+	// shaped.go: the message lattice (KIND x METHOD). Random histories draw cells from it; after them, sweep histories
+	// walk every cell x id class once (seeded order), so that the cells exercised do not depend on luck.
+	sKinds, sMethods := shapedKinds(), shapedMethods()
+	var sweep []shapedCell
+	sweepClasses := shapedIDClasses()
+	if c.Mode != "stateful" {
+		sweepClasses = []string{"none", "never"} // no id is ever live or deleted here
+	}
+	for pass := 0; pass < r.Pick(1, 3); pass++ { // every pass in another seeded order: other neighbours, other sessions
+		var one []shapedCell
+		for _, k := range sKinds {
+			for _, m := range sMethods {
+				for _, ic := range sweepClasses {
+					one = append(one, shapedCell{k, m, ic})
+				}
+			}
+		}
+		rng.Shuffle(len(one), func(i, j int) { one[i], one[j] = one[j], one[i] })
+		sweep = append(sweep, one...)
+	}
+	const sweepChunk = 60
+	nSweep := (len(sweep) + sweepChunk - 1) / sweepChunk
+	cellsSeen := map[string]bool{}
+	cellsTotal := len(sKinds) * len(sMethods) * len(sweepClasses)
+	for h := 0; h < nHist+nSweep; h++ {
 		live := map[string]bool{}
 		var deleted []string
 		streams := map[string]*peer.Stream{}
 		var hist []step
 		reqN := 0
 		nsteps := 4 + rng.Intn(maxSteps-3)
+		// a sweep history: two sessions, one of them deleted, then a chunk of cells
+		type scripted struct {
+			op, cls string
+			cell    *shapedCell
+		}
+		var script []scripted
+		if h >= nHist {
+			script = []scripted{{op: "initialize", cls: "none"}, {op: "initialize", cls: "none"}, {op: "DELETE", cls: "live"}}
+			lo := (h - nHist) * sweepChunk
+			hi := lo + sweepChunk
+			if hi > len(sweep) {
+				hi = len(sweep)
+			}
+			for i := lo; i < hi; i++ {
+				script = append(script, scripted{op: "shaped", cls: sweep[i].Cls, cell: &sweep[i]})
+			}
+			nsteps = len(script)
+		}
 		fail := func(sig, what string) {
 			r.Violation(fmt.Sprintf("C04|seq|%s|%s", c.Mode, sig), fmt.Sprintf("[%s] %s", c, what), map[string]interface{}{"config": c.String(), "history": hist})
 		}
@@ -129,10 +174,23 @@ func sequential(r *vh.Run, c cfg, nHist, maxSteps int) {
 			return l
 		}
 		for s := 0; s < nsteps; s++ {
-			ops := []string{"initialize", "request", "request", "notification", "response-post", "GET", "stream-close", "DELETE"}
+			ops := []string{"initialize", "request", "request", "notification", "response-post", "GET", "stream-close", "DELETE", "shaped", "shaped", "shaped"}
 			op := ops[rng.Intn(len(ops))]
 			classes := []string{"none", "live", "live", "deleted", "never", "foreign"}
 			cls := classes[rng.Intn(len(classes))]
+			var cell shapedCell
+			if script != nil {
+				op, cls = script[s].op, script[s].cls
+				if script[s].cell != nil {
+					cell = *script[s].cell
+				}
+			} else if op == "shaped" {
+				cell = shapedCell{K: sKinds[rng.Intn(len(sKinds))], M: sMethods[rng.Intn(len(sMethods))]}
+			}
+			shClass := ""
+			if op == "shaped" {
+				shClass = shapedClass(cell.K, cell.M)
+			}
 			id := ""
 			switch cls {
 			case "live":
@@ -157,6 +215,10 @@ func sequential(r *vh.Run, c cfg, nHist, maxSteps int) {
 			reqN++
 			var re *peer.Reaction
 			switch op {
+			case "shaped":
+				st.Req = shapedBody(cell.K, cell.M, reqN)
+				st.Shape = cell.K.Name + " x " + cell.M.Name + " = " + shClass
+				re = post(st.Req, id)
 			case "initialize":
 				re = post(string(kit.InitBody(strconv.Itoa(reqN), "")), id)
 			case "request":
@@ -227,9 +289,15 @@ func sequential(r *vh.Run, c cfg, nHist, maxSteps int) {
 			}
 			st.Status, st.Header = re.Status, re.Sess
 			// ---- reference model ----
-			want := 0 // expected status; -1 = any refusal (4xx/5xx)
-			switch c.Mode {
-			case "stateful":
+			want := 0   // expected status; -1 = any refusal (4xx/5xx); shaped: see shapedWant
+			opSig := op // what the signatures name: for a shaped body its class and what its members are
+			if op == "shaped" {
+				opSig = fmt.Sprintf("shaped:%s|idmember=%s|method=%s", shClass, cell.K.IDSem, cell.M.Sem)
+			}
+			switch {
+			case op == "shaped":
+				want = shapedWant(c, shClass, cls, live[id])
+			case c.Mode == "stateful":
 				switch {
 				case op == "GET" && !c.GetSSE:
 					want = 405
@@ -244,7 +312,7 @@ func sequential(r *vh.Run, c cfg, nHist, maxSteps int) {
 				default:
 					want = 202
 				}
-			case "stateless":
+			case c.Mode == "stateless":
 				switch op {
 				case "GET":
 					want = 405
@@ -255,7 +323,7 @@ func sequential(r *vh.Run, c cfg, nHist, maxSteps int) {
 				default:
 					want = 202
 				}
-			case "disabled":
+			case c.Mode == "disabled":
 				switch op {
 				case "GET", "DELETE":
 					want = -1
@@ -270,17 +338,27 @@ func sequential(r *vh.Run, c cfg, nHist, maxSteps int) {
 			st.Expect = strconv.Itoa(want)
 			hist = append(hist, st)
 			if re.Status == 0 {
-				fail(fmt.Sprintf("%s|id=%s|transport-error", op, cls), "transport error: "+re.Err)
+				fail(fmt.Sprintf("%s|id=%s|transport-error", opSig, cls), "transport error: "+re.Err)
 				continue
 			}
-			if (want > 0 && re.Status != want) || (want == -1 && re.Status < 400) {
-				fail(fmt.Sprintf("%s|id=%s|status=%d-want-%d", op, cls, re.Status, want), fmt.Sprintf("%s with %s id answered %d, the state machine says %d", op, cls, re.Status, want))
+			if (want > 0 && re.Status != want) || (want == -1 && re.Status < 400) || (want == -2 && (re.Status < 400 || re.Status > 499)) {
+				fail(fmt.Sprintf("%s|id=%s|status=%d-want-%d", opSig, cls, re.Status, want), fmt.Sprintf("%s (%s) with %s id answered %d, the state machine says %d (-1: any refusal, -2: a 4xx refusal)", op, st.Shape, cls, re.Status, want))
+			}
+			// a body that names initialize and has an id member, but is doubtful as a request: the statement leaves open
+			// whether it is one. Either it is answered like one (200, fresh session id) or no session id is issued.
+			if want == -3 && re.Sess != "" && re.Status != 200 {
+				fail(fmt.Sprintf("%s|id=%s|session-id-issued-with-status-%d", opSig, cls, re.Status), fmt.Sprintf("%s: a session id was issued in an answer with status %d, which is not the answer to an initialize request", st.Shape, re.Status))
 			}
 			// session-id header rules
 			switch c.Mode {
 			case "stateful":
-				if op == "initialize" && cls == "none" && re.Status == 200 {
+				isInit := op == "initialize" || (op == "shaped" && shClass == "init")
+				maybeInit := op == "shaped" && shClass == "maybe-init" && re.Sess != ""
+				if (isInit || maybeInit) && cls == "none" && re.Status == 200 {
 					nid := re.Sess
+					if op == "shaped" {
+						r.Count("shaped_sessions_created_"+shClass, 1)
+					}
 					switch {
 					case nid == "":
 						fail("initialize|no-id-issued", "initialize without id: no Mcp-Session-Id issued")
@@ -292,11 +370,13 @@ func sequential(r *vh.Run, c cfg, nHist, maxSteps int) {
 						checkIDShape(r, nid)
 					}
 				} else if re.Sess != "" {
-					if re.Sess != id {
-						fail(fmt.Sprintf("%s|id=%s|foreign-session-header", op, cls), fmt.Sprintf("response carries session id %q, request carried %q", re.Sess, id))
+					if op == "shaped" && cls == "none" {
+						fail(fmt.Sprintf("%s|id=none|session-id-issued-to-non-initialize", opSig), fmt.Sprintf("%s, posted without session id, is not an initialize request, yet the answer (status %d) carries a session id %q", st.Shape, re.Status, re.Sess))
+					} else if re.Sess != id {
+						fail(fmt.Sprintf("%s|id=%s|foreign-session-header", opSig, cls), fmt.Sprintf("response carries session id %q, request carried %q", re.Sess, id))
 					}
 				} else if re.Status >= 200 && re.Status < 300 && cls == "live" && op != "DELETE" {
-					fail(fmt.Sprintf("%s|id=live|session-header-missing", op), "a request served in a session was answered without the session id")
+					fail(fmt.Sprintf("%s|id=live|session-header-missing", opSig), "a request served in a session was answered without the session id")
 				}
 				if op == "DELETE" && re.Status == 200 {
 					delete(live, id)
@@ -314,16 +394,67 @@ func sequential(r *vh.Run, c cfg, nHist, maxSteps int) {
 				}
 			default:
 				if re.Sess != "" {
-					fail(fmt.Sprintf("%s|session-id-issued", op), fmt.Sprintf("%s mode: response carries Mcp-Session-Id %q", c.Mode, re.Sess))
+					fail(fmt.Sprintf("%s|session-id-issued", opSig), fmt.Sprintf("%s mode: response carries Mcp-Session-Id %q", c.Mode, re.Sess))
 				}
 			}
 			// reported live set == model
 			if c.Mode == "stateful" {
-				got, err := in.Server.GetActiveSessions()
+				all, err := in.Server.GetActiveSessions()
+				var got []string
+				for _, g := range all {
+					if !strays[g] { // a session reported as unaccounted for at an earlier step is not reported again at every later one
+						got = append(got, g)
+					}
+				}
 				sort.Strings(got)
 				if err != nil || strings.Join(got, ",") != strings.Join(liveList(), ",") {
-					fail(fmt.Sprintf("%s|id=%s|live-set-mismatch", op, cls), fmt.Sprintf("GetActiveSessions=%v (err %v), the history leaves %v alive", got, err, liveList()))
+					fail(fmt.Sprintf("%s|id=%s|live-set-mismatch", opSig, cls), fmt.Sprintf("GetActiveSessions=%v (err %v), the history leaves %v alive (sessions already reported as unaccounted for: %d)", got, err, liveList(), len(strays)))
+					// report each divergence once: from here on the comparison continues from what the server says
+					for _, g := range got {
+						if !live[g] {
+							strays[g] = true
+						}
+					}
+					for id := range live {
+						found := false
+						for _, g := range got {
+							found = found || g == id
+						}
+						if !found && err == nil {
+							delete(live, id)
+						}
+					}
 				}
+			}
+			if op == "shaped" {
+				// cells exercised: KIND x METHOD x id class (as actually borne), per mode
+				key := cell.K.Name + "|" + cell.M.Name + "|" + cls
+				for _, ic := range sweepClasses {
+					if ic == cls {
+						cellsSeen[key] = true
+						r.SetAdd("shaped_cells_"+c.Mode, key)
+					}
+				}
+				r.SetAdd("shaped_kinds", cell.K.Name)
+				r.SetAdd("shaped_methods", cell.M.Name)
+				r.Count("shaped_posts_"+c.Mode+"_"+shClass+"_id="+cls, 1)
+				if c.Mode == "stateful" && cls == "none" && shClass == "maybe-init" {
+					// what the library makes of the doubtful ones (both outcomes conform; recorded, not judged)
+					out := fmt.Sprintf("%d", re.Status)
+					if re.Sess != "" {
+						out += "+session"
+					}
+					if cell.M.Sem == "init" {
+						r.SetAdd("shaped_maybe_init_without_id_outcomes", "kind "+cell.K.Name+" (params valid) => "+out)
+					} else if cell.K.Name == "id-int" {
+						r.SetAdd("shaped_maybe_init_without_id_outcomes", "method "+cell.M.Name+" (id integer) => "+out)
+					}
+				}
+				r.Distinct(fmt.Sprintf("seq|%s|shaped:%s|%s|%d|sess=%v", c, shClass, cls, re.Status, re.Sess != ""))
+				if h == nHist && c.Mode == "stateful" && c.GetSSE && !c.PostSSE {
+					shapedSample = append(shapedSample, st)
+				}
+				continue
 			}
 			r.Distinct(fmt.Sprintf("seq|%s|%s|%s|%d", c, op, cls, re.Status))
 		}
@@ -331,12 +462,26 @@ func sequential(r *vh.Run, c cfg, nHist, maxSteps int) {
 			s.Close()
 		}
 		if h == 0 && c.GetSSE && !c.PostSSE { // one sample history per mode: the evidence file keeps six samples in all
-			r.Sample(map[string]interface{}{"part": "sequential", "config": c.String(), "history": hist})
+			if c.Mode == "stateful" {
+				firstHist = hist // emitted together with the first steps of the first sweep history
+			} else {
+				r.Sample(map[string]interface{}{"part": "sequential", "config": c.String(), "history": hist})
+			}
+		}
+		if h == nHist && firstHist != nil {
+			if len(shapedSample) > 10 {
+				shapedSample = shapedSample[:10]
+			}
+			r.Sample(map[string]interface{}{"part": "sequential", "config": c.String(), "history": firstHist, "shaped_sweep_first_steps": shapedSample})
 		}
 		// leave no sessions behind for the next history
 		for id := range live {
 			hp.Do(ctx, "DELETE", url, map[string]string{"Mcp-Session-Id": id}, nil)
 		}
+	}
+	r.Max("shaped_cells_per_config_"+c.Mode+"_of_"+strconv.Itoa(cellsTotal), int64(len(cellsSeen)))
+	if len(cellsSeen) < cellsTotal {
+		r.Inconclusive(fmt.Sprintf("[%s] shaped messages: only %d of %d cells (kind x method x id class) were exercised", c, len(cellsSeen), cellsTotal))
 	}
 }
 
@@ -807,9 +952,9 @@ func main() {
 	statelessState(r, r.Pick(600, 6000))
 	csprng(r, r.Pick(200, 2000))
 	uniqueness(r, r.Pick(4000, 100000))
-	r.Finish("12 configurations {stateful, stateless, sessions disabled} x GET-SSE on/off x POST-SSE on/off: seeded random histories (<= 25 steps) over {initialize, request, notification, response-post, GET, stream-close, DELETE} x id classes {none, live, deleted, never-issued, foreign-made}, each step compared with the reference state machine (status, session header) and Server.GetActiveSessions() with the model's live set; ids DERIVED from issued ids (nearid.go; stateful x GET-SSE on/off x POST-SSE on/off; per round a live session with an open listening stream, a live one without and a deleted one): a seeded family of ~110 small edits of the issued id in 9 families (case flips of one/some/all letters, ASCII white space around/inside the value and obs-fold, control bytes, unicode spaces and invisible characters around it, truncation/extension/substitution/swap/doubling/mixing with another live id, look-alike characters, list/parameter/quoting forms, percent/base64/uuid/hex re-encodings, several Mcp-Session-Id header lines), each written byte by byte onto a raw TCP connection as request, notification, response-post, initialize, GET and DELETE; a wrapper around the handler records which header values net/http handed over for that very exchange, and only exchanges in which no value that arrived equals an issued id are judged (refused by net/http, arrived equal to an issued id or arrived empty: counted as skipped): 404 (405 for GET with GET-SSE off), no session header other than the id borne, GetActiveSessions unchanged after every exchange, afterwards both live sessions answer under their own ids, the deleted id is still refused and a server notification still arrives on the open listening stream; concurrent histories (3-5 workers, <= 45 ops) of init/use/DELETE/list checked for linearizability with porcupine; overlapping operations of ONE session (overlap.go, stateful, GET-SSE on, POST-SSE on/off, next to a bystander session with its own stream and a deleted session): 2-3 GETs bearing the session id parked together at the yield points get.H / get.T / get.E and released in enumerated orders (k=2: both, k=3: rotating permutations; one at a time or in a burst; with / without an earlier stream), the DELETE of the session placed before each release, after the releases and at the end, a second initialize, requests, notifications, stream-closes, given-up GETs and GET / DELETE / requests bearing deleted and never-issued ids in between, plus seeded walks and free-running storms (GETs, DELETE and requests of the session fired together with seeded delays at the points), plus high-volume free-running rounds aimed at the windows inside the session-ending operations (spin.go: per round a fresh session, 4-8 peers re-opening its listening stream in a tight loop and 0-2 peers sending requests / notifications bearing it until their first refusal, while after a seeded number of re-opens the session is ended by one DELETE, two concurrent DELETEs or a DELETE concurrent with a second initialize; batches of 200 rounds per server, GOMAXPROCS default/8/4/2, POST-SSE on/off; exactly one DELETE 200, the other 404; afterwards every stream answered 200 has ended, no listening stream beyond the bystander's is registered, the live set is the model's and seeded later exchanges bearing the id get 404); every exchange judged by its logical-clock position relative to the DELETE (answered before it started: served with the same id; started after it was answered: 404; overlapping: either), every stream of the session the peer still holds after the DELETE was answered 200 must end (all of them; reported only after the server demonstrably answered other exchanges meanwhile), the deleted id is then refused by request / initialize / notification / GET / DELETE, and GetActiveSessions equals the model after every step; stateless answers replayed after seeded prefixes; stateless answers of handlers that keep state: HTTP context function, middleware, tool / prompt / resource handlers, the three list filters and a notification handler read the session of GetSessionFromContext and ClientSessionFromContext (id, times, data), the context values and the server handle, report what they found in the answer and then write the request nonce and visit counters; sequential histories (one / several clients, one server / four stateless Server instances of the process, session-disabled servers, JSON and POST-SSE answers, non-probe writers in between), groups of 2-4 requests parked on a gate after writing while complete requests run, and free-running groups of 3-8; every probe answer, normalised (own nonce, own server name, never-seen session id, times classified against the request window), must equal the answer of the same request as first request of a fresh server in a fresh process (24 reference children), and no session id may be seen by two requests when fresh processes hand out different ids; ids: uniqueness, visible ASCII, >= 128 bits, and traced to getrandom(2) buffers of the server process with strace. Distinct = (configuration, op, id class, status) seen conforming, plus concurrent history shapes.",
+	r.Finish("12 configurations {stateful, stateless, sessions disabled} x GET-SSE on/off x POST-SSE on/off: seeded random histories (<= 25 steps) over {initialize, request, notification, response-post, GET, stream-close, DELETE} x id classes {none, live, deleted, never-issued, foreign-made}, each step compared with the reference state machine (status, session header) and Server.GetActiveSessions() with the model's live set; the same histories also post SHAPED bodies (shaped.go; op drawn 3 in 11 in the random histories, and after them sweep histories — two sessions, one deleted, then 60 cells — that walk every cell once in seeded order, three times in the thorough tier): the cross product of 28 message KINDS (id integer / 0 / negative / string / empty string / fractional / huge, id null / true / false / object / array / given twice, no id, id or no id with result / error / both, jsonrpc member absent or 1.0, batch array of one / two / none, the object quoted as a JSON string) x 32 METHOD members (initialize with valid params, without params, with params string / array / null / without protocolVersion, method given twice, the same name with an escaped letter, notifications/initialized, ping, tools/list, unknown, absent, empty, null / number / true / object / array, Initialize, INITIALIZE, white space / tab / NUL / zero-width space around, dotless i, initialise, initialized, initialize/, notifications/initialize) x id class; a classifier written from the JSON-RPC / MCP message grammar alone says what each body IS (initialize request, doubtful initialize = names initialize and has an id member but is no well-formed request, other request, notification, notifications/initialized, response, none) and the model judges it by that: without id only an initialize request creates a session (200, fresh id, live set grows by it), a doubtful one is either answered like one or gets no session id, everything else 400 without session id; with an unknown / deleted / foreign id 404 (bodies that are no message: any 4xx); with a live id 200 / 202 under the same id (status of no-message bodies and of a repeated notifications/initialized not judged); stateless / disabled: never a session id, 200 / 202 for well-formed messages; the live set is compared after every exchange and a divergence is reported once (the comparison continues from the server's set); cells exercised are counted per mode (monitors shaped_cells_*, a run that misses a cell is inconclusive); ids DERIVED from issued ids (nearid.go; stateful x GET-SSE on/off x POST-SSE on/off; per round a live session with an open listening stream, a live one without and a deleted one): a seeded family of ~110 small edits of the issued id in 9 families (case flips of one/some/all letters, ASCII white space around/inside the value and obs-fold, control bytes, unicode spaces and invisible characters around it, truncation/extension/substitution/swap/doubling/mixing with another live id, look-alike characters, list/parameter/quoting forms, percent/base64/uuid/hex re-encodings, several Mcp-Session-Id header lines), each written byte by byte onto a raw TCP connection as request, notification, response-post, initialize, GET and DELETE; a wrapper around the handler records which header values net/http handed over for that very exchange, and only exchanges in which no value that arrived equals an issued id are judged (refused by net/http, arrived equal to an issued id or arrived empty: counted as skipped): 404 (405 for GET with GET-SSE off), no session header other than the id borne, GetActiveSessions unchanged after every exchange, afterwards both live sessions answer under their own ids, the deleted id is still refused and a server notification still arrives on the open listening stream; concurrent histories (3-5 workers, <= 45 ops) of init/use/DELETE/list checked for linearizability with porcupine; overlapping operations of ONE session (overlap.go, stateful, GET-SSE on, POST-SSE on/off, next to a bystander session with its own stream and a deleted session): 2-3 GETs bearing the session id parked together at the yield points get.H / get.T / get.E and released in enumerated orders (k=2: both, k=3: rotating permutations; one at a time or in a burst; with / without an earlier stream), the DELETE of the session placed before each release, after the releases and at the end, a second initialize, requests, notifications, stream-closes, given-up GETs and GET / DELETE / requests bearing deleted and never-issued ids in between, plus seeded walks and free-running storms (GETs, DELETE and requests of the session fired together with seeded delays at the points), plus high-volume free-running rounds aimed at the windows inside the session-ending operations (spin.go: per round a fresh session, 4-8 peers re-opening its listening stream in a tight loop and 0-2 peers sending requests / notifications bearing it until their first refusal, while after a seeded number of re-opens the session is ended by one DELETE, two concurrent DELETEs or a DELETE concurrent with a second initialize; batches of 200 rounds per server, GOMAXPROCS default/8/4/2, POST-SSE on/off; exactly one DELETE 200, the other 404; afterwards every stream answered 200 has ended, no listening stream beyond the bystander's is registered, the live set is the model's and seeded later exchanges bearing the id get 404); every exchange judged by its logical-clock position relative to the DELETE (answered before it started: served with the same id; started after it was answered: 404; overlapping: either), every stream of the session the peer still holds after the DELETE was answered 200 must end (all of them; reported only after the server demonstrably answered other exchanges meanwhile), the deleted id is then refused by request / initialize / notification / GET / DELETE, and GetActiveSessions equals the model after every step; stateless answers replayed after seeded prefixes; stateless answers of handlers that keep state: HTTP context function, middleware, tool / prompt / resource handlers, the three list filters and a notification handler read the session of GetSessionFromContext and ClientSessionFromContext (id, times, data), the context values and the server handle, report what they found in the answer and then write the request nonce and visit counters; sequential histories (one / several clients, one server / four stateless Server instances of the process, session-disabled servers, JSON and POST-SSE answers, non-probe writers in between), groups of 2-4 requests parked on a gate after writing while complete requests run, and free-running groups of 3-8; every probe answer, normalised (own nonce, own server name, never-seen session id, times classified against the request window), must equal the answer of the same request as first request of a fresh server in a fresh process (24 reference children), and no session id may be seen by two requests when fresh processes hand out different ids; ids: uniqueness, visible ASCII, >= 128 bits, and traced to getrandom(2) buffers of the server process with strace. Distinct = (configuration, op, id class, status) seen conforming, plus concurrent history shapes.",
 		[]string{"CSPRNG clause: ids are assumed to be a reversible text encoding (hex/base64/uuid) of kernel CSPRNG bytes; an id derived by hashing would be reported",
-			"the hourly expiry sweep is not driven", "derived ids: a request with several Mcp-Session-Id lines of which one is an issued id, or whose value net/http itself reduces to an issued id (optional white space, obs-fold before the value), bears that id and is not judged as unknown; requests net/http refuses before the handler (control bytes) are only checked for leaving the live set unchanged", "stateless-state: the session-disabled configuration is judged like the stateless one (handlers get no session there; the statement names only stateless mode)", "stateless-state: session times without a monotonic reading are not ordered against the request window (counted, not judged)", "notification histories use a method without server-side handler (notifications/verif)",
+			"the hourly expiry sweep is not driven", "derived ids: a request with several Mcp-Session-Id lines of which one is an issued id, or whose value net/http itself reduces to an issued id (optional white space, obs-fold before the value), bears that id and is not judged as unknown; requests net/http refuses before the handler (control bytes) are only checked for leaving the live set unchanged", "stateless-state: the session-disabled configuration is judged like the stateless one (handlers get no session there; the statement names only stateless mode)", "stateless-state: session times without a monotonic reading are not ordered against the request window (counted, not judged)", "notification histories use a method without server-side handler (notifications/verif)", "shaped bodies: a body naming initialize whose id member is null / boolean / object / array / duplicated, whose params are absent or ill-typed, which also has result / error, or whose jsonrpc member is absent / not 2.0 is DOUBTFUL as a request: the library answers most of them 200 with a new session (some with a JSON-RPC error in the body), which is accepted as long as status, header and live set agree; what it does is recorded in set_shaped_maybe_init_without_id_outcomes", "shaped bodies: JSON-RPC batches are not messages of this transport for the model (the library refuses them with 400); under a live id their status is not judged",
 			"overlap: which of several concurrent GETs of one session keeps the stream is not judged here (C11); a stream left open after DELETE is reported after a 10 s + 2 s watchdog only if a request of the bystander (200) and a request bearing the deleted id (404) were answered meanwhile, otherwise the schedule is inconclusive (the probe is not a DELETE: it must not be able to tidy up what the judged DELETE left behind)",
 			"overlap spin: the windows inside DELETE / a second DELETE / a second initialize are sampled by volume (free-running peers, no yield point inside those operations), not enumerated; the number of listening streams the server has registered is read through the verif hook VerifListeningStreams and compared with the bystander's only after every stream of the session has ended at the peer"})
 }
